@@ -1585,7 +1585,12 @@ def render_harness():
                     out = ""
                     for e in el:
                         t = [x for x in tags_of(e) if x.startswith("r:")] if isinstance(e, Int) else []
-                        out += "<%s>" % t[0] if t else "\u0001<untagged %r>" % (e,)
+                        if t:
+                            out += "<%s>" % t[0]
+                        elif isinstance(e, Int) and e.is_conc() and e.val < 0x110000:
+                            out += chr(e.val)           # literal text (a field name, a separator)
+                        else:
+                            out += "\u0001<untagged %r>" % (e,)
                     if a.kind == "debug":
                         # Debug of a String / str is the quoted text (letters need no escape), of a Vec the bracketed list
                         is_text = isinstance(v, Adt) or all(isinstance(e, Int) and e.kind == "char" for e in el) or getattr(last, "is_str", False)
